@@ -99,6 +99,13 @@ class BuildError(Exception):
     pass
 
 
+def _older_than(path, seconds):
+    try:
+        return time.time() - os.path.getmtime(path) > seconds
+    except OSError:
+        return False
+
+
 def build_lib(variant="rel", hooks=True, extra=""):
     """Compile /repo/src (working tree) into a static library; returns the build directory.
     Same file set and per-file flags as src/CMakeLists.txt for this image's configuration."""
@@ -112,9 +119,11 @@ def build_lib(variant="rel", hooks=True, extra=""):
     with Lock("lib-" + variant + xt + "-" + REPO_TAG):
         if os.path.exists(os.path.join(out, "libsoxr.a")):
             return out
-        # drop stale builds of this variant of this source tree
+        # drop stale builds of this variant of this source tree (not recent ones: a check started before the sources
+        # changed may still be linking against / running them)
         for d in glob.glob(os.path.join(BUILD, "lib", prefix + "*")):
-            shutil.rmtree(d, ignore_errors=True)
+            if _older_than(d, 4 * 3600):
+                shutil.rmtree(d, ignore_errors=True)
         os.makedirs(out, exist_ok=True)
         write_config(out)
         base = "gcc -std=gnu89 -Wno-error -fopenmp -I%s -I%s -DSOXR_LIB -include soxr-config.h %s" % (out, SRC, flags)
@@ -156,7 +165,8 @@ def build_harness(name, sources, variant="rel", extra="", link_lib=True, cxx=Fal
             return exe
         for old in glob.glob(os.path.join(outdir, "%s-%s-%s-*" % (name, variant, REPO_TAG))):
             try:
-                os.remove(old)
+                if _older_than(old, 4 * 3600):
+                    os.remove(old)
             except OSError:
                 pass
         inc = "-I%s -I%s -I%s -DSOXR_LIB -include soxr-config.h" % (lib or build_lib(variant, hooks, libextra), SRC, HARNESS)
